@@ -3,7 +3,8 @@
         the i-th record is the i-th number (exported from the implementation);
         prints the n shard contents  OK <hex|->,<hex|->,...
    N <prefixhex|-> <number>               names of --prefix/--number  OK <hex>,<hex>,...
-   B <len>                                block sizes handed to the writer for len bytes *)
+   B <len>                                block sizes handed to the writer for len bytes
+   T <n> <spechex> <delimhex> <inputhex|->  whole tool, key hash computed by the Coq models (Fields + Murmur) *)
 open Model
 open Common
 
@@ -19,7 +20,7 @@ let () =
         (* the abstract key hash: looked up by position.  The model calls keyhash
            on the record; records are numbered in input order by a counter that
            follows the model's left-to-right fold. *)
-        let recs = records (z_of_int 10) shard_strip_cr bs in
+        let recs = records_fast (z_of_int 10) shard_strip_cr bs in
         if List.length recs <> Array.length hs then
           print_endline (Printf.sprintf "MISMATCH model sees %d records, implementation hashed %d" (List.length recs) (Array.length hs))
         else begin
@@ -35,7 +36,7 @@ let () =
           if not !ok then print_endline "MISMATCH the same line got two different hashes"
           else
             let keyhash r = match Hashtbl.find_opt tbl (key r) with Some h -> h | None -> N0 in
-            let outs = shard_tool keyhash n bs in
+            let outs = shard_tool_fast keyhash n bs in
             print_endline ("OK " ^ String.concat "," (List.map hex_or_dash outs))
         end
       | ["N"; prefix; number] ->
@@ -46,5 +47,23 @@ let () =
         let k = int_of_string len in
         let bs = List.init k (fun _ -> z_of_int 65) in
         print_endline ("OK " ^ String.concat "," (List.map (fun b -> string_of_int (List.length b)) (blocks bs)))
+      | ["T"; n; spec; delim; input] ->
+        (* the whole tool with the key computed by the Coq models of RangeFields and Murmur *)
+        let bs = if input = "-" then [] else zlist_of_hex input in
+        let d = match zlist_of_hex delim with c :: _ -> c | [] -> z_of_int 9 in
+        (match shard_tool_fields (zlist_of_hex spec) d (n_of_string n) bs with
+         | Some outs -> print_endline ("OK " ^ String.concat "," (List.map hex_or_dash outs))
+         | None -> print_endline "BADSPEC")
+      | ["A"; fields; prefix; number; outputs; compress] ->
+        (* option handling: fields hex, prefix hex | "-" (absent), number | "-" (absent), outputs hex,hex | "-", compress hex *)
+        let o = { o_fields = zlist_of_hex fields;
+                  o_prefix = (if prefix = "-" then None else Some (if prefix = "e" then [] else zlist_of_hex prefix));
+                  o_number = (if number = "-" then None else Some (n_of_string number));
+                  o_outputs = (if outputs = "-" then [] else List.map zlist_of_hex (String.split_on_char ',' outputs));
+                  o_compress = zlist_of_hex compress } in
+        (match shard_parse_args o with
+         | None -> print_endline "ERR"
+         | Some ((_, outs), c) ->
+           print_endline ("OK " ^ String.concat "," (List.map hex_or_dash outs) ^ " " ^ (match c with CNone -> "0" | CGzip -> "1" | CBzip -> "2")))
       | ["K"] -> print_endline ("K " ^ string_of_int (int_of_n kBlockSize))
       | _ -> print_endline "?")
